@@ -103,27 +103,23 @@ def _r1(chk, repo):
             "PCGLS operator application: matrix and function forms do not correspond (flag 1 = forward, flag 2 = transpose): " + "; ".join(bad), fa)
     fp = repo.method(pc, "_apply_Pinv")[1]
     x, flag = func_params(fp)[1:3]
+    # table over (storage form, flag): the value returned on each path (tests on the flag may go through boolean temporaries)
     problems = []
-    g = CFG(fp)
-    forms = {f"self._Pinv@{x}": ("inv", 1), f"self._Pinv.T@{x}": ("inv", 2),
-             f"self._P.solve_A({x},use_LDLt_decomposition=False)": ("chol", 1), f"self._P.solve_At({x},use_LDLt_decomposition=False)": ("chol", 2),
-             f"spa.linalg.spsolve(self._P,{x})": ("spsolve", 1), f"spa.linalg.spsolve(self._P.T,{x})": ("spsolve", 2)}
-    seen = {}
-    for n in g.nodes:
-        if isinstance(n.ast, ast.Assign) and n.kind == "stmt" and path_of(n.ast.targets[0]) == "precond":
-            e = _norm(n.ast.value)
-            if e not in forms:
-                problems.append(f"unknown preconditioner application `{e}`")
-                continue
-            store, direction = forms[e]
-            guards = {(_norm(t.ast), lab) for t, lab in g.guards_of(n)}
-            if (f"{flag}=={direction}", "T") not in guards:
-                problems.append(f"`{e}` ({'forward' if direction == 1 else 'transposed'} application) is not restricted to flag == {direction}: "
+    table = {("inv", 1): f"self._Pinv@{x}", ("inv", 2): f"self._Pinv.T@{x}",
+             ("chol", 1): f"self._P.solve_A({x},use_LDLt_decomposition=False)", ("chol", 2): f"self._P.solve_At({x},use_LDLt_decomposition=False)",
+             ("spsolve", 1): f"spa.linalg.spsolve(self._P,{x})", ("spsolve", 2): f"spa.linalg.spsolve(self._P.T,{x})"}
+    stores = {"inv": {pn("self._explicitPinv"): True}, "chol": {pn("self._explicitPinv"): False, pn("has_cholmod"): True},
+              "spsolve": {pn("self._explicitPinv"): False, pn("has_cholmod"): False}}
+    for (store, direction), want in table.items():
+        eff = case_effects(repo, pc, fp, flag, direction, extra=stores[store], level=4)
+        got = sorted({(e["kind"], e["ret"]) for e in eff})
+        if got != [("return", expected_text(want))]:
+            other = expected_text(table[(store, 3 - direction)])
+            if got == [("return", other)]:
+                problems.append(f"storage form `{store}`, flag == {direction}: `{other}` ({'forward' if direction == 2 else 'transposed'} application) is applied: "
                                 f"P^-1 is applied where P^-T is required (or vice versa), wrong for non-symmetric preconditioners such as triangular factors")
-            seen.setdefault(store, set()).add(direction)
-    for store in ("inv", "chol", "spsolve"):
-        if seen.get(store) != {1, 2}:
-            problems.append(f"storage form `{store}` does not offer both the forward and the transposed application (found {sorted(seen.get(store, []))})")
+            else:
+                problems.append(f"storage form `{store}`, flag == {direction}: {got}, expected `{want}`")
     chk.add("C16-R1", f"{pc.qual}._apply_Pinv", not problems, site(repo, fp), "flag 2 applies the transposed inverse in all three storage forms", "; ".join(problems), fp)
     # PCGLS.solve uses the pairs in the Bjorck order
     sv = repo.method(pc, "solve")[1]
